@@ -42,11 +42,14 @@ ASSUMPTIONS = ["finite coordinates; decimals are non-negative ints or None",
                "being exact are dropped (the rounding direction under IEEE arithmetic is not determined by the model)",
                "unit-length decisions whose exact margin is below 1e-10 are dropped (never the case for a normalised normal "
                "checked at the decimals it was rounded to: the margin is at least 13% of the tolerance)",
-               "plane normals are normalised in floating point (unit up to 1 ulp)"]
+               "plane normals are normalised in floating point; every generated normal is checked in exact rationals to satisfy "
+               "|n.n - 1| <= 4*2^-52, the hypothesis of the *_double theorems (a normal outside the bound would be dropped; none occurs)"]
 EXHAUSTIVE = {"quick": False, "thorough": False}
 
 DEFAULT_DECIMALS = 6  # the documented class defaults (Polyline.DEFAULT_DECIMALS, Plane.DEFAULT_*_DECIMALS)
 RTOL = 1e-13
+UNIT_SLACK = Fraction(4, 2 ** 52)  # |n.n - 1| of a normal normalised in double precision (delta of the *_double theorems)
+NOT_NORMALISED = []               # generated normals outside that bound (dropped; expected to stay empty)
 TINY = 1e-300
 
 
@@ -288,7 +291,7 @@ def gen(rng, tier):
         if i % 5 == 4:
             spec["normal"] = SPECIAL_NORMALS[(i // 5) % len(SPECIAL_NORMALS)]
         else:
-            spec["octant"] = i % 8
+            spec["octant"] = (i // 14) % 8  # every (direction decimals, octant) pair occurs
         yield spec
     # (3) corruptions
     n_base = 4 if quick else 40
@@ -513,6 +516,10 @@ def make_plane(spec):
         return None
     R = np.array(ref, dtype=np.float64)
     N = np.array(n, dtype=np.float64)
+    # hypothesis of the Plane theorems (PW.C19.*_double): the normal is unit up to 4*2^-52 (exactly, in rationals)
+    if abs(sum(F(x) * F(x) for x in N) - 1) > UNIT_SLACK:
+        NOT_NORMALISED.append(spec)
+        return None
 
     def obj():
         return Plane(R.copy(), N.copy())
